@@ -8,18 +8,13 @@
 extern crate proto_vulcan;
 extern crate serde_json;
 
-mod build;
-mod domops;
-mod project;
-mod termops;
-mod user;
+extern crate pvh;
 
-use build::{Builder, Defs};
-use project::{answer_json, store_json, Names};
-use proto_vulcan::engine::DefaultEngine;
-use proto_vulcan::goal::Goal;
+use pvh::build::{self, Builder, Defs};
+use pvh::project::{answer_json, store_json, Names};
+use pvh::user::VU;
+use pvh::{arm, domops, log, termops, ticks, E, G, LOG, T};
 use proto_vulcan::lresult::LResult;
-use proto_vulcan::lterm::LTerm;
 use proto_vulcan::query::{Query, QueryResult};
 use proto_vulcan::solver::Solver;
 use proto_vulcan::state::State;
@@ -28,49 +23,15 @@ use std::cell::RefCell;
 use std::io::{BufRead, BufWriter, Write};
 use std::panic::{catch_unwind, AssertUnwindSafe};
 use std::rc::Rc;
-use user::VU;
-
-pub type E = DefaultEngine<VU>;
-pub type T = LTerm<VU, E>;
-pub type G = Goal<VU, E>;
 
 thread_local! {
-    /// Observation records of the running case (probes are appended from inside goals).
-    pub static LOG: RefCell<Vec<Value>> = RefCell::new(Vec::new());
     static PANIC_INFO: RefCell<Option<(String, String)>> = RefCell::new(None);
-}
-
-pub fn log(v: Value) {
-    LOG.with(|l| l.borrow_mut().push(v));
 }
 
 struct VecResult(Vec<LResult<VU, E>>);
 impl QueryResult<VU, E> for VecResult {
     fn from_vec(v: Vec<LResult<VU, E>>) -> Self {
         VecResult(v)
-    }
-}
-
-fn ticks() -> u64 {
-    #[cfg(proto_vulcan_verif)]
-    {
-        proto_vulcan::verif::ticks()
-    }
-    #[cfg(not(proto_vulcan_verif))]
-    {
-        0
-    }
-}
-
-fn arm(budget: u64, sched: u64) {
-    #[cfg(proto_vulcan_verif)]
-    {
-        proto_vulcan::verif::arm_budget(budget);
-        proto_vulcan::verif::set_schedule(sched);
-    }
-    #[cfg(not(proto_vulcan_verif))]
-    {
-        let _ = (budget, sched);
     }
 }
 
@@ -186,11 +147,7 @@ fn run_case(case: &Value) -> Vec<Value> {
     let end = match res {
         Ok(end) => end,
         Err(payload) => {
-            let mut is_budget = false;
-            #[cfg(proto_vulcan_verif)]
-            {
-                is_budget = payload.downcast_ref::<proto_vulcan::verif::VerifBudget>().is_some();
-            }
+            let is_budget = pvh::is_budget_payload(&payload);
             let n = LOG.with(|l| {
                 l.borrow()
                     .iter()
